@@ -39,10 +39,40 @@ def model (topic : Bytes) (a b : OpInst) : Option String :=
       some s!"{showOutcome ra} {unread} {showOutcome rb} {if showOutcome rb == "hang" then "diff" else if showOutcome rb == showOutcome rf then "same" else "diff"}"
     | _, _ => none
 
+/-- three operations, the first answered under a foreign correlation id -/
+def modelChain (topic : Bytes) (delta : Nat) (a b c : OpInst) : Option String :=
+  let stream := frame (1 + delta) a.body ++ frame 2 b.body ++ frame 3 c.body
+  match runInstL false topic a (⟨stream, 1, false⟩, false) with
+  | none => none
+  | some (ra, c1) =>
+    match runInstL false topic b c1 with
+    | none => none
+    | some (rb, c2) =>
+      match runInstL false topic c c2 with
+      | none => none
+      | some (rc, _) =>
+        -- the driver stops a chain at the first hang
+        let sb := if showOutcome ra == "hang" then "hang" else showOutcome rb
+        let sc := if sb == "hang" then "hang" else showOutcome rc
+        some s!"{showOutcome ra} {sb} {sc}"
+
+/-- after a framing error every later operation fails (and returns: `hang` is not a failure, it is a hang) -/
+def monitorChain (impl : String) : Bool :=
+  match words impl with
+  | [ra, rb, rc] => isFailStr ra && isFailStr rb && isFailStr rc
+  | _ => false
+
 def step (line : String) : String :=
   match line.splitOn " => " with
   | [req, impl] =>
     match words req with
+    | ["c11x", t, d, sa, ha, sb, hb, sc, hc] =>
+      match ofHex t, d.toNat?, parseInst sa ha, parseInst sb hb, parseInst sc hc with
+      | some topic, some delta, some a, some b, some c =>
+        match modelChain topic delta a b c with
+        | some m => s!"model={m} holds={if monitorChain impl then 1 else 0}"
+        | none => "bad-op"
+      | _, _, _, _, _ => "bad-args"
     | ["c11", t, sa, ha, sb, hb] =>
       match ofHex t, parseInst sa ha, parseInst sb hb with
       | some topic, some a, some b =>
